@@ -78,6 +78,7 @@ fn gen_case(seed: u64, index: u64, tier: Tier) -> Case {
 				},
 				seed: rng.next_u64(),
 				indexed: false,
+				extensible: rng.chance(0.35),
 			},
 		},
 		2..=5 => {
@@ -86,12 +87,17 @@ fn gen_case(seed: u64, index: u64, tier: Tier) -> Case {
 			let enc = ENCS[(code % 6) as usize];
 			let channels = 1 + ((code / 6) % 2) as u16;
 			let frames = 12usize;
-			let len = DATA_OFFSET + frames * enc.bytes() * channels as usize;
+			let extensible = (code / 7) % 3 == 0;
+			let data_offset = if extensible { 68 } else { 44 };
+			let len = data_offset + frames * enc.bytes() * channels as usize;
 			let kind = (code / 12) % 6;
 			let k = ((code / 72) as usize) % (len + 4);
+			// known finding (open): a corrupted channel count in an extensible header panics inside
+			// symphonia (debug builds); while it is listed those two header bytes are not flipped
+			let k_flip = if extensible && (k == 22 || k == 23) && crate::known::is_open("C18-symphonia-extensible-channel-count") { 24 } else { k };
 			let fault = match kind {
 				0 => Fault::Truncate(k),
-				1 => Fault::Flip(k, (rng.below(8)) as u8),
+				1 => Fault::Flip(k_flip, (rng.below(8)) as u8),
 				2 => Fault::IoError(k),
 				3 => Fault::Interrupted(k as u64 % 12),
 				4 => Fault::ShortReads(1 + k % 9),
@@ -105,6 +111,7 @@ fn gen_case(seed: u64, index: u64, tier: Tier) -> Case {
 					frames,
 					seed: rng.next_u64(),
 					indexed: false,
+					extensible,
 				},
 				fault,
 				streaming: rng.chance(0.3),
@@ -123,6 +130,7 @@ fn gen_case(seed: u64, index: u64, tier: Tier) -> Case {
 					frames,
 					seed: 0,
 					indexed: true,
+					extensible: rng.chance(0.3),
 				},
 				start,
 				seeks: {
@@ -326,7 +334,7 @@ pub fn run_case(case: &Case) -> CaseResult {
 			let reference = reference_frames(spec, &effective);
 			let full = reference_frames(spec, &bytes);
 			let in_header = match fault {
-				Fault::Flip(k, _) => *k < DATA_OFFSET,
+				Fault::Flip(k, _) => *k < spec.data_offset(),
 				_ => false,
 			};
 			let kind = match fault {
@@ -656,7 +664,7 @@ impl Check for C18 {
 		CheckInfo {
 			id: "C18",
 			level: "fault_enumeration",
-			rule: "streams by case index: load (2/8) = PCM WAV from the harness's own encoder (u8, s16, s24, s32, f32, f64; 1..4 channels; 7 rates; 0..6000 frames; seeded samples) loaded and compared with the independent decode; fault (4/8) = systematic (encoding x mono/stereo x {truncate at byte k, flip a bit of byte k, I/O error at byte k, EINTR on the k-th read, short reads of 1..9 bytes, unseekable} x every byte offset k of a 12-frame file), loaded or streamed; stream (1/8) = 17000..40000-frame index-coded WAV streamed through the real decoder from a seeded start position with up to 2 seeks, compared with the loaded frames by decoded index; asset (1/8) = the shipped .wav / .ogg files loaded, streamed, truncated, bit-flipped and read in short pieces; non-trivial = frames were compared or a fault was applied; distinct = hash of (encoding, channels, size class, fault kind and offset / asset and fault bucket)",
+			rule: "streams by case index: load (2/8) = PCM WAV from the harness's own encoder (u8, s16, s24, s32, f32, f64; 1..4 channels; plain or WAVE_FORMAT_EXTENSIBLE header with the default channel mask (mono = front centre); 7 rates; 0..6000 frames; seeded samples) loaded and compared with the independent decode; fault (4/8) = systematic (encoding x mono/stereo x {truncate at byte k, flip a bit of byte k, I/O error at byte k, EINTR on the k-th read, short reads of 1..9 bytes, unseekable} x every byte offset k of a 12-frame file), loaded or streamed; stream (1/8) = 17000..40000-frame index-coded WAV streamed through the real decoder from a seeded start position with up to 2 seeks, compared with the loaded frames by decoded index; asset (1/8) = the shipped .wav / .ogg files loaded, streamed, truncated, bit-flipped and read in short pieces; non-trivial = frames were compared or a fault was applied; distinct = hash of (encoding, channels, size class, fault kind and offset / asset and fault bucket)",
 			assumptions: vec![
 				"for a bit flip inside the RIFF header only 'no panic, no hang' is demanded (the header then describes a different, possibly valid file)".into(),
 				"streaming is compared at rate 1 with device rate == file rate, for rates where sr * (1/sr) == 1.0 (see the C04 known finding)".into(),
